@@ -26,7 +26,8 @@ class List(Environment):
         def invoke(self, tex):
             """ Set up counter for this list depth """
             try:
-                self.counter = List.counters[List.depth-1]
+                depth = self.ownerDocument.userdata.get('list-depth', 0)
+                self.counter = List.counters[depth-1]
                 self.position = self.ownerDocument.context.counters[self.counter].value + 1
             except (KeyError, IndexError):
                 pass
@@ -60,12 +61,16 @@ class List(Environment):
 
     def invoke(self, tex):
         """ Set list nesting depth """
+        # The nesting depth is kept per document
+        userdata = self.ownerDocument.userdata
+        depth = userdata.get('list-depth', 0)
         if self.macroMode != Environment.MODE_END:
-            List.depth += 1
+            depth += 1
         else:
-            List.depth -= 1
+            depth -= 1
+        userdata['list-depth'] = depth
         try:
-            for i in range(List.depth, len(List.counters)):
+            for i in range(depth, len(List.counters)):
                 self.ownerDocument.context.counters[List.counters[i]].setcounter(0)
         except (IndexError, KeyError):
             pass
